@@ -122,8 +122,8 @@ def main(argv):
     mod = load_check(cid)
 
     if a.replay:
-        enter_scratch()
         rep = json.load(open(a.replay))
+        enter_scratch()
         if hasattr(mod, "worker_init"):
             mod.worker_init()
         r = mod.run_case(rep["case"])
